@@ -23,6 +23,7 @@ import (
 	"sort"
 	"strconv"
 	"strings"
+	"sync"
 )
 
 type Ints interface {
@@ -126,8 +127,57 @@ func try(f func() string) (out string) {
 	return f()
 }
 
+// share makes the optic built by the first caller the one every later caller of the same case uses: in the concurrent
+// pass (`harness.bin par G R`) G goroutines then work through ONE optic value, each on a value of its own.
+var sharedOptics sync.Map
+
+func share[T any](key int, v T) T {
+	actual, _ := sharedOptics.LoadOrStore(key, v)
+	return actual.(T)
+}
+
+// par: every case once alone (its own result is the reference), then G goroutines x R rounds of the same case at once
+func par(g, r int) {
+	out := bufio.NewWriter(os.Stdout)
+	defer out.Flush()
+	for i, c := range cases {
+		want := try(c)
+		var mu sync.Mutex
+		diff := ""
+		var wg sync.WaitGroup
+		for k := 0; k < g; k++ {
+			wg.Add(1)
+			go func() {
+				defer wg.Done()
+				for j := 0; j < r; j++ {
+					if got := try(c); got != want {
+						mu.Lock()
+						if diff == "" {
+							diff = got
+						}
+						mu.Unlock()
+						return
+					}
+				}
+			}()
+		}
+		wg.Wait()
+		if diff == "" {
+			fmt.Fprintf(out, "%d ok\n", i)
+		} else {
+			fmt.Fprintf(out, "%d DIFF %s\n", i, strings.ReplaceAll(diff, "\n", " "))
+		}
+	}
+}
+
 func main() {
 	debug.SetPanicOnFault(true)
+	if len(os.Args) == 4 && os.Args[1] == "par" {
+		g, _ := strconv.Atoi(os.Args[2])
+		r, _ := strconv.Atoi(os.Args[3])
+		par(g, r)
+		return
+	}
 	in := bufio.NewScanner(os.Stdin)
 	in.Buffer(make([]byte, 1<<22), 1<<22)
 	out := bufio.NewWriter(os.Stdout)
